@@ -132,12 +132,13 @@ Record ostate := OState {
   o_resets : ca -> nat;
   o_target : tid -> ca;                 (* CA of the thread (from its Start) *)
   o_last : tid -> nat * bool;           (* kind and fault of the thread's previous operation *)
-  o_ok : bool                           (* no step-local violation so far *)
+  o_ok_e : bool;                        (* so far only the directory in use was touched *)
+  o_ok_d : bool                         (* so far no complete, live account was deleted *)
 }.
 
 Definition oinit : ostate :=
   OState (fun _ => empty_slot) (fun _ => 0) (fun _ => 0) (fun _ => 0) (fun _ => 0) (fun _ => 0)
-         (fun _ => 0) (fun _ => 0) (fun _ => (0, false)) true.
+         (fun _ => 0) (fun _ => 0) (fun _ => (0, false)) true true.
 
 Definition ov (v : nat) : option acct := match v with 0 => None | _ => Some v end.
 
@@ -152,11 +153,11 @@ Definition ostep (o : ostate) (e : event) : ostate :=
   match e with
   | EStart t c =>
       OState (o_slots o) (o_created o) (o_forgotten o) (o_fsaves o) (o_crashes o) (o_deletes o)
-             (o_resets o) (upd (o_target o) t c) (upd (o_last o) t (0, false)) (o_ok o)
+             (o_resets o) (upd (o_target o) t c) (upd (o_last o) t (0, false)) (o_ok_e o) (o_ok_d o)
   | EReset c =>
       OState (o_slots o) (o_created o) (upd (o_forgotten o) c (o_created o c)) (o_fsaves o)
              (o_crashes o) (o_deletes o) (upd (o_resets o) c (S (o_resets o c)))
-             (o_target o) (o_last o) (o_ok o)
+             (o_target o) (o_last o) (o_ok_e o) (o_ok_d o)
   | ECrash t =>
       let c := o_target o t in
       let '(lk, lf) := o_last o t in
@@ -164,7 +165,7 @@ Definition ostep (o : ostate) (e : event) : ostate :=
       let inw := negb lf && (Nat.eqb lk k_newacct || Nat.eqb lk k_storereg) in
       OState (o_slots o) (o_created o) (o_forgotten o) (o_fsaves o)
              (if inw then upd (o_crashes o) c (S (o_crashes o c)) else o_crashes o)
-             (o_deletes o) (o_resets o) (o_target o) (upd (o_last o) t (0, false)) (o_ok o)
+             (o_deletes o) (o_resets o) (o_target o) (upd (o_last o) t (0, false)) (o_ok_e o) (o_ok_d o)
   | EOp t f k kc v =>
       let c := o_target o t in
       let sl := o_slots o kc in
@@ -194,7 +195,7 @@ Definition ostep (o : ostate) (e : event) : ostate :=
       let deletes' :=
           if recreate_del && negb f then upd (o_deletes o) kc (S (o_deletes o kc)) else o_deletes o in
       OState slots' created' (o_forgotten o) fsaves' (o_crashes o) deletes' (o_resets o)
-             (o_target o) (upd (o_last o) t (k, f)) (o_ok o && ok_e && ok_d)
+             (o_target o) (upd (o_last o) t (k, f)) (o_ok_e o && ok_e) (o_ok_d o && ok_d)
   end.
 
 Definition orun (evs : list event) : ostate := fold_left ostep evs oinit.
@@ -218,7 +219,7 @@ Fixpoint spec_cas (o : ostate) (f : final) (c : ca) (l : list (nat * nat * nat))
   end.
 
 Definition spec_hist (evs : list event) (f : final) : bool :=
-  let o := orun evs in o_ok o && spec_cas o f 0 (f_cas f).
+  let o := orun evs in o_ok_e o && o_ok_d o && spec_cas o f 0 (f_cas f).
 
 (* ------------------------------------------------------------------ kinds 1, 2: URL rule *)
 
